@@ -296,6 +296,13 @@ pub fn run_one(prop: &dyn Prop, stream: &[u32], tier: Tier, rendering: bool, fin
         Outcome::Fail(_) | Outcome::Known(..) if crate::rat::overflowed() => Outcome::Discard("rat-overflow"),
         o => o,
     };
+    let out = match out {
+        Outcome::Fail(m) if std::env::var("VERIF_NOFAIL").is_ok() => {
+            crate::calib::note("NOFAIL (failures turned into discards)", 1.0, || m.chars().take(300).collect());
+            Outcome::Discard("nofail-survey")
+        }
+        o => o,
+    };
     if let Outcome::Known(k, _) = &out {
         if let Ok(dir) = std::env::var("VERIF_DUMP_KNOWN") {
             static DUMPED: AtomicU64 = AtomicU64::new(0);
